@@ -30,7 +30,7 @@ PROP = dict(
         "Comdex.C18.accrual_subadditive_across_rate_change",
         # state level: the clocks of the x/lend positions (LastInteractionTime, own index copy)
         "Comdex.C18.lend_interaction_restarts_clock", "Comdex.C18.borrow_two_interactions_not_more",
-        "Comdex.C18.lend_reward_interaction_restarts_clock",
+        "Comdex.C18.lend_reward_interaction_restarts_clock", "Comdex.C18.stable_rebalance_spec",
     ],
     harness_tests=["TestC18"],
     trusted_base=[KERNEL_TB, HARNESS_TB, DEC_TB,
